@@ -380,6 +380,37 @@ func runBinProbe(args []string) {
 		}
 		tr.emit(J{"ev": "binname", "name": n, "documented": documented[n], "http": hcode, "ws": wcode, "alive": p.alive()})
 	}
+	// every documented call with one parameter fewer / one more than it declares (well-typed as far as they go):
+	// invalid params, and the method is not run
+	arity := map[string]int{"vipnode_connect": 4, "vipnode_update": 4, "vipnode_peer": 4, "vipnode_client": 4, "vipnode_host": 4,
+		"vipnode_ping": 0, "pool_account": 1, "pool_addNode": 4, "pool_withdraw": 3, "pool_status": 0}
+	wellTyped := []string{`"c2lnbmF0dXJl"`, `"` + strings.Repeat("ab", 64) + `"`, `1`, `{}`, `{}`}
+	var docNames []string
+	for n := range arity {
+		docNames = append(docNames, n)
+	}
+	for _, n := range sorted(docNames) {
+		for _, given := range []int{arity[n] - 1, arity[n] + 1} {
+			if given < 0 {
+				continue
+			}
+			params := wellTyped[:given]
+			if n == "pool_account" || n == "pool_addNode" && given == 5 {
+				params = []string{`"0x0"`, `"x"`, `1`, `"y"`, `"z"`}[:given]
+			}
+			id++
+			body := fmt.Sprintf(`{"jsonrpc":"2.0","id":%d,"method":%q,"params":[%s]}`, id, n, strings.Join(params, ","))
+			st, txt := httpRPC(p.addr, body)
+			var m jsonrpc2.Message
+			hcode := -1
+			if st == 200 && json.Unmarshal([]byte(txt), &m) == nil && m.Response != nil && m.Response.Error != nil {
+				hcode = m.Response.Error.Code
+			} else if st == 200 && m.Response != nil {
+				hcode = 0
+			}
+			tr.emit(J{"ev": "binarity", "name": n, "given": given, "declared": arity[n], "http": hcode, "alive": p.alive()})
+		}
+	}
 	wsc.Close()
 	tr.close()
 	ioutil.WriteFile(statusFile, []byte("OK\n"), 0644)
